@@ -527,10 +527,48 @@ def rule_T15(text):
             break
         text = text[:m.start()] + text[m.start(1):m.end(1)] + '.verif_get()' + text[m.end():]
         fired += 1
+    # a read `*G` of a guard variable (bound by `let [mut] G = PATH.write()` / `.read()`) inside an expression
+    guards = set(re.findall(r'\blet\s+(?:mut\s+)?(\w+)\s*=\s*(?:\w+\s*\.\s*)+(?:write|read)\s*\(\s*\)\s*;', code_mask(text)))
+    for g in sorted(guards):
+        while True:
+            mask = code_mask(text)
+            m = re.search(r'(?<![\w\)\]])\*\s*' + re.escape(g) + r'\b(?!\s*(?:\+=|-=|=(?!=)))', mask)
+            if not m:
+                break
+            text = text[:m.start()] + g + '.verif_get()' + text[m.end():]
+            fired += 1
     return text, fired
 
 
-RULES = {'T1': rule_T1, 'T2': rule_T2, 'T3': rule_T3, 'T5': rule_T5, 'T9': rule_T9, 'T10': rule_T10, 'T11': rule_T11, 'T12': rule_T12, 'T13': rule_T13, 'T14': rule_T14, 'T15': rule_T15}
+def rule_T16(text):
+    """assignment through a map guard's `value_mut()`:
+        let V = G.value_mut();  ...  V.FIELD = EXPR;      ->      ...  G.verif_set_FIELD(EXPR);
+    (dashmap's RefMut dereferences to the entry: assigning a field through it IS an update of that entry of the map). Only when V is
+    used for nothing but such field assignments; anything else is left alone (and then does not compile: UNDECIDED)."""
+    fired = 0
+    while True:
+        mask = code_mask(text)
+        m = re.search(r'\blet\s+(\w+)\s*=\s*(\w+)\s*\.\s*value_mut\s*\(\s*\)\s*;[ \t]*\n?', mask)
+        if not m:
+            break
+        v, g = m.group(1), m.group(2)
+        rest_mask = mask[m.end():]
+        uses = list(re.finditer(r'\b' + re.escape(v) + r'\b', rest_mask))
+        assigns = list(re.finditer(r'\b' + re.escape(v) + r'\s*\.\s*(\w+)\s*=(?!=)\s*', rest_mask))
+        if not assigns or len(uses) != len(assigns):
+            raise ExtractError('T16: `%s` (bound to %s.value_mut()) is used other than in field assignments' % (v, g))
+        rest = text[m.end():]
+        out, last = '', 0
+        for a in assigns:
+            e = rest_mask.index(';', a.end())
+            out += rest[last:a.start()] + '%s.verif_set_%s(%s)' % (g, a.group(1), rest[a.end():e].strip())
+            last = e
+            fired += 1
+        text = text[:m.start()] + out + rest[last:]
+    return text, fired
+
+
+RULES = {'T1': rule_T1, 'T2': rule_T2, 'T3': rule_T3, 'T5': rule_T5, 'T9': rule_T9, 'T10': rule_T10, 'T11': rule_T11, 'T12': rule_T12, 'T13': rule_T13, 'T14': rule_T14, 'T15': rule_T15, 'T16': rule_T16}
 
 
 def t6_key(callees):
@@ -623,6 +661,62 @@ def rule_T7(body, k, header):
         end = e
         new_body = '{ ' + body[j:end].strip() + ' }'
     return body[:m.start()] + header.strip() + ' ' + new_body + body[end:], 1
+
+
+def auto_annotate_boolean_closures(body):
+    """closure literals that no `//@@ closure k` line annotates and whose body is ONE side-effect-free boolean expression
+    (`|x| x.f() > 0`, `|a| !a.is_empty()`): the closure is given the postcondition `result == <its own body>`, so a caller that
+    passes it to a std function with a contract (Option::filter, ..) is checked against what the closure really computes.
+    Anything else (block bodies, non-boolean bodies, macros) is left unannotated."""
+    fired = 0
+    pos = 0
+    while True:
+        mask = code_mask(body)
+        m = None
+        for c in re.finditer(r'\|([^|()]*)\|', mask[pos:]):
+            pre = mask[:pos + c.start()].rstrip()
+            if pre.endswith(('=', '(', ',', 'move')) and not pre.endswith(('==', '<=', '>=', '!=')):
+                m = c
+                break
+        if not m:
+            break
+        start = pos + m.start()
+        j = pos + m.end()
+        while mask[j] in ' \t\n':
+            j += 1
+        pos = j
+        if mask[j:j + 2] == '->' or mask[j] == '{':
+            continue                      # annotated already, or a block body
+        d, e = 0, j
+        while e < len(mask):
+            ch = mask[e]
+            if ch in '([{':
+                d += 1
+            elif ch in ')]}':
+                if d == 0:
+                    break
+                d -= 1
+            elif ch in ';,' and d == 0:
+                break
+            e += 1
+        expr = body[j:e].strip()
+        emask = code_mask(expr)
+        depth0 = ''
+        dd = 0
+        for ch in emask:
+            if ch in '([{':
+                dd += 1
+            elif ch in ')]}':
+                dd -= 1
+            depth0 += ch if dd == 0 else ' '
+        is_bool = bool(re.search(r'==|!=|<=|>=|&&|\|\||(?<![-=<>])[<>](?![<>=])', depth0)) or emask.startswith('!') or bool(re.search(r'\.\s*(is_some|is_none|is_empty)\s*\(\s*\)\s*$', emask))
+        if not is_bool or re.search(r'\w+!\s*[\(\[\{]', emask) or '|' in depth0.replace('||', ''):
+            continue
+        new = '%s -> (verif_c: bool) ensures verif_c == (%s) { %s }' % (body[start:pos - (pos - (start + (m.end() - m.start())))].strip(), expr, expr)
+        body = body[:start] + new + body[e:]
+        pos = start + len(new)
+        fired += 1
+    return body, fired
 
 
 def param_list_open(mask):
@@ -722,6 +816,9 @@ def extract_fn(repo: str, spec: dict):
     for k in sorted(spec.get('closures', {}), reverse=True):
         body, n = rule_T7(body, int(k), spec['closures'][k])
         fired['T7:closure%d' % int(k)] = n
+    body, n = auto_annotate_boolean_closures(body)
+    if n:
+        fired['T7-auto:boolean closures'] = n
     for gp in spec.get('ghost_params', []):
         mask = code_mask(sig)
         op = param_list_open(mask)
